@@ -432,10 +432,10 @@ def leaf_corruptions(o, limit=6):
 
 
 def run(f, *a):
+    """(the batteries call the library from a shallow stack on small finite values: a RecursionError is the library's own --
+    the signal that cuts reference cycles during hook generation escaping to the caller -- and an outcome like any other error)"""
     try:
         return ("ok", f(*a))
-    except RecursionError:
-        raise
     except BaseException as e:        # noqa
         return ("err", type(e).__name__)
 
